@@ -2,9 +2,11 @@
    `retained` (M_Receive.v) is the quantity the property bounds.  Proved: the request line never holds more
    than max_method + 1 / max_uri + 1 bytes, a header line never more than the line limit + 1, a header block
    (fields stored + line in progress) never more than hd_bound, in any state reachable by parsing any bytes in
-   any pieces (P_C06.v); the body/chunk components are decided against the code by the adversarial-stream
-   correspondence, which measures `retained` on the real members. *)
-From Via Require Import M_Char M_Parse M_Receive P_C06.
+   any pieces (P_C06.v); and the whole of `retained` - request line, header block, body, chunk size line, chunk
+   data, trailers - never exceeds ret_bound in any state a connection reaches by any reads of any bytes (P_C06b.v).
+   The adversarial-stream correspondence measures `retained` on the real members and compares it with the model's
+   figure and with the same bound. *)
+From Via Require Import M_Char M_Parse M_Receive P_C06 P_C06b.
 Local Open Scope N_scope.
 
 Theorem C06_request_line_bounded : forall L buf r,
@@ -28,6 +30,24 @@ Proof. intros L frags. apply hd_feed_bounded, hd_inv_init. Qed.
 Example C06_example_bound_value : hd_bound (mk_limits 8190 8 100 65534 1024 8 65534 65534 false) = 134143.
 Proof. reflexivity. Qed.
 
+(* everything the receiver of a connection retains, after any sequence of reads of any bytes (complete requests are
+   handed over and cleared, rejected ones cleared): bounded by
+   (MAX_METHOD+1) + (MAX_URI+1) + hd_bound + max_content_length + max_chunk_size + (MAX_LINE+1) + hd_bound *)
+Theorem C06_connection_retains_bounded : forall cfg frags,
+  retained (fst (fst (fst (feed cfg (rv_init cfg) frags)))) <= ret_bound cfg.
+Proof. exact feed_retained_bounded. Qed.
+
+(* and in the middle of a read: the state any single receive() call leaves behind *)
+Theorem C06_receive_retains_bounded : forall cfg frags buf,
+  retained (fst (fst (receive cfg (fst (fst (fst (feed cfg (rv_init cfg) frags)))) buf))) <= ret_bound cfg.
+Proof. exact receive_retained_bounded. Qed.
+
+Example C06_example_ret_bound :
+  ret_bound (mk_rcfg (mk_limits 8190 8 100 65534 1024 8 65534 65534 false) 1048576 1048576 true true false) = 2374663.
+Proof. reflexivity. Qed.
+
 Print Assumptions C06_request_line_bounded.
 Print Assumptions C06_field_line_bounded.
 Print Assumptions C06_header_block_bounded.
+Print Assumptions C06_connection_retains_bounded.
+Print Assumptions C06_receive_retains_bounded.
